@@ -3,6 +3,8 @@
 //verif:assume the local file system is an in-memory model with POSIX directory semantics (afero.Fs stub: sorted directory listings, O_EXCL honoured, a path is a file or a directory); afero.Walk runs from source; atomicity of O_EXCL between processes, fsync and real directory iteration are the kernel's and are outside this check
 //verif:assume key universe for listings: a solver-chosen subset of {a/b/x, a/b/y/z, a/bc/x, a/b-c/x, a-b/x, ab, c} (components that prefix one another, bytes below '/'), prefixes {"", a, a/, a/b, a/b/, a-b/, zz/}, delimiter "" or "/", every page size 1..5, pages followed by token to the end
 //verif:cover VerifC16List delimiter full-scan-multi-page prefix-with-slash
+//verif:assume operation histories: programs of 3 (thorough 4) operations out of {put, create-if-absent, delete, get, has} over the keys {a/k, ab/k, a/kk, k} (path components that are prefixes of one another) with symbolic one-byte contents, checked step by step against a map model; afterwards Keys and a paged prefix listing (symbolic page size) against the model
+//verif:cover VerifC16Programs overwritten refused deleted-then-recreated
 //verif:cover VerifC16Objects exclusive-refused overwrite deleted put-error-reported source-returns-data-with-eof
 //verif:cover VerifC16ExclusiveRace interleaved
 package localfs
@@ -253,4 +255,108 @@ func VerifC16ExclusiveRace() {
 	vAssert(err == nil, "get")
 	got, _ := io.ReadAll(rd)
 	vAssert(len(got) == 1 && winner >= 0 && got[0] == byte('A'+winner), "the-winners-bytes-remain")
+}
+
+// VerifC16Programs: operation histories against a key/value map model.
+func VerifC16Programs() {
+	vBudget(300000000)
+	vUnwind(100000)
+	fs := newVFs()
+	st := vNewStore(fs)
+	ctx := context.Background()
+	keys := []string{"a/k", "ab/k", "a/kk", "k"}
+	model := map[string][]byte{}
+	deleted := map[string]bool{}
+	steps := 3
+	if vThorough() {
+		steps = 4
+	}
+	for i := 0; i < steps; i++ {
+		k := keys[vChoose("key", len(keys))]
+		cur, present := model[k]
+		switch vChoose("op", 5) {
+		case 0: // put (overwrite)
+			v := []byte{vByte("v", 0, 255)}
+			vAssert(st.Put(ctx, k, bytes.NewReader(v), storage.OverWrite) == nil, "put-succeeds")
+			if present {
+				vCover("overwritten")
+			}
+			if deleted[k] {
+				vCover("deleted-then-recreated")
+			}
+			model[k] = v
+		case 1: // create-if-absent
+			v := []byte{vByte("v", 0, 255)}
+			err := st.Put(ctx, k, bytes.NewReader(v), storage.NoOverWrite)
+			if present {
+				vCover("refused")
+				vAssert(err != nil, "create-if-absent-refuses-an-existing-key")
+			} else {
+				vAssert(err == nil, "create-if-absent-succeeds-on-a-free-key")
+				model[k] = v
+			}
+		case 2: // delete
+			err := st.Delete(ctx, k)
+			if present {
+				vAssert(err == nil, "delete-of-an-existing-key-succeeds")
+				delete(model, k)
+				deleted[k] = true
+			}
+		case 3: // get
+			rd, err := st.Get(ctx, k)
+			if present {
+				vAssert(err == nil, "get-of-an-existing-key-succeeds")
+				if err == nil {
+					got, _ := io.ReadAll(rd)
+					vAssert(vBytesEqual(got, cur), "read-returns-the-last-written-bytes")
+				}
+			} else {
+				vAssert(err != nil, "get-of-a-missing-key-fails")
+			}
+		default: // has
+			has, err := st.Has(ctx, k)
+			vAssert(err == nil && has == present, "has-agrees-with-the-model")
+		}
+	}
+	var want []string
+	for _, k := range keys {
+		if _, ok := model[k]; ok {
+			want = append(want, k)
+		}
+	}
+	sort.Strings(want)
+	all, err := st.Keys(ctx)
+	vAssert(err == nil, "keys-succeeds")
+	sort.Strings(all)
+	vAssert(len(all) == len(want), "keys-returns-exactly-the-live-keys")
+	for i := range all {
+		if i < len(want) {
+			vAssert(all[i] == want[i], "keys-returns-exactly-the-live-keys")
+		}
+	}
+	// paged listing under the prefix "a"
+	c := vInt("pageSize", 1, 4)
+	var wantA []string
+	for _, k := range want {
+		if strings.HasPrefix(k, "a") {
+			wantA = append(wantA, k)
+		}
+	}
+	var got []string
+	token := ""
+	for pages := 0; pages < 6; pages++ {
+		page, next, err := st.KeysPrefix(ctx, token, "a", "", c)
+		vAssert(err == nil, "listing-succeeds")
+		got = append(got, page...)
+		if next == "" {
+			break
+		}
+		token = next
+	}
+	vAssert(len(got) == len(wantA), "listing-returns-exactly-the-live-keys-under-the-prefix")
+	for i := range got {
+		if i < len(wantA) {
+			vAssert(got[i] == wantA[i], "listing-in-lexicographic-order")
+		}
+	}
 }
